@@ -73,6 +73,19 @@ type chunkReader struct {
 	lastEmpty     bool
 	silenceAt     []int
 	silence       time.Duration
+	// the longest time between two end-of-file results returned by consecutive reads
+	lastEOF   time.Time
+	maxEOFGap time.Duration
+}
+
+func (cr *chunkReader) noteEOF() {
+	now := time.Now()
+	if !cr.lastEOF.IsZero() {
+		if g := now.Sub(cr.lastEOF); g > cr.maxEOFGap {
+			cr.maxEOFGap = g
+		}
+	}
+	cr.lastEOF = now
 }
 
 func (cr *chunkReader) Read(p []byte) (int, error) {
@@ -107,6 +120,7 @@ func (cr *chunkReader) Read(p []byte) (int, error) {
 				cr.pauseMs = cr.pauseMs[1:]
 			}
 			cr.eofAt = cr.eofAt[1:]
+			cr.noteEOF()
 			return 0, io.EOF
 		}
 		if cr.off+n > cr.eofAt[0] {
@@ -122,6 +136,7 @@ func (cr *chunkReader) Read(p []byte) (int, error) {
 	copy(p, cr.data[:n])
 	cr.data = cr.data[n:]
 	cr.off += n
+	cr.lastEOF = time.Time{}
 	if cr.eofWithData && len(cr.data) == 0 {
 		return n, io.EOF
 	}
@@ -223,6 +238,7 @@ func execC09(c *child.Ctx, k pipeCase, cj []byte, traces, pairs map[uint64]struc
 	verifhook.Begin(k.Seed, k.Hook)
 	leaked := ""
 	blockedStreak := 0
+	var firstReader *chunkReader
 	for si, input := range inputs {
 		cr := &chunkReader{data: input, max: k.Chunk, profile: k.ReaderPro, r: ref.NewRand(k.Seed*17 + 5 + uint64(si)), eofWithData: k.EOFWithData, emptyPermille: k.EmptyPermille}
 		if si == 0 && k.SilenceMs > 0 {
@@ -232,6 +248,9 @@ func execC09(c *child.Ctx, k pipeCase, cj []byte, traces, pairs map[uint64]struc
 		if si == 0 && k.TolMs > 0 {
 			cr.eofAt = append([]int(nil), k.EOFAt...)
 			cr.pauseMs = append([]int(nil), k.PauseMs...)
+		}
+		if si == 0 {
+			firstReader = cr
 		}
 		rd := bufio.NewReader(cr)
 		returned := make(chan struct{})
@@ -321,6 +340,13 @@ func execC09(c *child.Ctx, k pipeCase, cj []byte, traces, pairs map[uint64]struc
 			bad = fmt.Sprintf("consumer %d received %d messages, sequential framing of the same bytes gives %d", i, len(got), len(baseline))
 		}
 		if bad != "" {
+			// a double end-of-file is within the tolerance only if the machine got from the
+			// first to the second in time; if it did not (measured by the reader itself),
+			// the handler was entitled to give up and the run says nothing
+			if k.TolMs > 0 && firstReader != nil && firstReader.maxEOFGap > time.Duration(k.TolMs)*time.Millisecond/2 {
+				c.Count("interruption_runs_discarded_machine_stalled", 1)
+				return -1
+			}
 			c.Violate("consumer-sequence-differs", bad, cj)
 		}
 	}
@@ -469,8 +495,8 @@ func monC09(c *child.Ctx, replay json.RawMessage) {
 		} else if i%8 == 6 && len(input) > 200 && k.SilenceMs == 0 {
 			// a transient double end-of-file right after a consumer was held up for longer
 			// than the tolerance: the hold-up is not silence of the source
-			k.TolMs, k.More, k.EOFAt, k.PauseMs = 60, nil, nil, nil
-			k.Consumers = []consumerCfg{{Cap: 0, Profile: 0, StallAtMsg: r.Range(1, 3), StallMs: r.Range(90, 160)}}
+			k.TolMs, k.More, k.EOFAt, k.PauseMs = 200, nil, nil, nil
+			k.Consumers = []consumerCfg{{Cap: 0, Profile: 0, StallAtMsg: r.Range(1, 3), StallMs: r.Range(260, 330)}}
 			base := runSequential(fixedStart, slog.LevelDebug, input)
 			// ONE interruption (a double end-of-file), placed one byte into one of the
 			// messages that follow the one the consumer is holding: when the pipeline has
@@ -492,6 +518,14 @@ func monC09(c *child.Ctx, replay json.RawMessage) {
 		}
 		cj := c.BeginV(k)
 		nbase := execC09(c, k, cj, traces, pairs)
+		for try := 0; nbase < 0 && try < 3; try++ {
+			nbase = execC09(c, k, cj, traces, pairs)
+		}
+		if nbase < 0 {
+			c.Inconclusive("the machine stalled between two end-of-file results in four runs of one case")
+			c.EvalN(1)
+			continue
+		}
 		perturbed := k.Hook != "" || k.ReaderPro != 0 || slow
 		c.Eval(ref.Hash64(cj), real >= 2 && nbase >= 10 && perturbed)
 		if c.WantSample() && real >= 2 && perturbed {
